@@ -71,8 +71,61 @@ def check_poly():
     _eq(ct[:16], "d31a8d34648e60db7b86afbc53ef7ec2", "RFC8439 2.8.2 ct")
 
 
+def check_macs():
+    from . import macs
+    macs.self_check()
+
+
+def check_argon2():
+    from . import argon2
+    argon2.self_check()
+
+
+def check_curve():
+    from . import curve
+    curve.self_check()
+
+
+def check_cross():
+    """cross vectors produced once with the OpenSSL 3.5 CLI (tools/gen_openssl_cross.py), committed in models/kats"""
+    import json
+    import os
+    from . import argon2, curve, macs, poly, stream
+    v = json.load(open(os.path.join(os.path.dirname(os.path.abspath(__file__)), "kats", "openssl_cross.json")))
+    hx = bytes.fromhex
+    for a in v["argon2"]:
+        got = argon2.argon2(a["type"], a["version"], a["t"], a["p"], a["m"], hx(a["pw"]), hx(a["salt"]), hx(a["key"]), hx(a["ad"]), a["taglen"])
+        _eq(got, a["tag"], "openssl argon2 %s v%x t%d p%d m%d T%d" % (a["type"], a["version"], a["t"], a["p"], a["m"], a["taglen"]))
+    for c in v["chacha20"]:
+        s = stream.Stream("chacha", 20, hx(c["key"]), hx(c["nonce"]))
+        # OpenSSL carries a 32-bit counter overflow into the next state word (djb's 64-bit counter); RFC 8439 leaves the
+        # overflow unspecified and the property fixes it as wrap modulo 2^32, so only the bytes before the wrap are comparable
+        n = min(len(c["keystream"]) // 2, ((1 << 32) - c["counter"]) * 64)
+        _eq(s.keystream(c["counter"], 0, n), c["keystream"][:2 * n], "openssl chacha20 ctr %d" % c["counter"])
+    for c in v["poly1305"]:
+        _eq(poly.poly1305(hx(c["key"]), hx(c["msg"])), c["tag"], "openssl poly1305")
+    for c in v["scrypt"]:
+        _eq(macs.scrypt(hx(c["pw"]), hx(c["salt"]), c["log_n"], c["r"], c["p"], len(c["out"]) // 2), c["out"], "openssl scrypt")
+    names = {"SHA1": "sha1", "SHA256": "sha256", "SHA512": "sha512", "SHA3-256": "sha3_256", "BLAKE2B-512": "blake2b:64"}
+    for c in v["hkdf"]:
+        k = names[c["digest"]]
+        prk = macs.hkdf_extract(k, hx(c["salt"]), hx(c["ikm"]))
+        _eq(macs.hkdf_expand(k, prk, hx(c["info"]), c["L"]), c["okm"], "openssl hkdf %s" % c["digest"])
+    for c in v["x25519"]:
+        _eq(curve.x25519(hx(c["sk"]), curve.BASE_U), c["pub"], "openssl x25519 pub")
+        _eq(curve.x25519(hx(c["sk"]), hx(c["peer_pub"])), c["shared"], "openssl x25519 shared")
+    for c in v["ed25519"]:
+        _eq(curve.ed_keypair(hx(c["seed"]))[1], c["pub"], "openssl ed25519 pub")
+        _eq(curve.ed_sign(hx(c["msg"]), hx(c["seed"])), c["sig"], "openssl ed25519 sig")
+        assert curve.ed_verify(hx(c["msg"]), hx(c["pub"]), hx(c["sig"]))
+
+
 def run_all():
     from . import hashes
     hashes.self_check(thorough=True)
     check_stream()
     check_poly()
+    check_macs()
+    check_argon2()
+    check_curve()
+    check_cross()
